@@ -122,7 +122,7 @@ class C17(Prop):
             for m, pth, cname, v in self.info["caps"]:
                 caps[cname] = v
                 caps[cname + "_" + m] = v
-            self.synth_specs = mg.synth_specs(self.assets, caps)
+            self.synth_specs = mg.synth_specs(self.assets, caps) + mg.extra_synth_specs(self.assets)
             self.synth_paths = mg.build_synth(self.synth_specs)
 
     # ---------------------------------------------------------------- probes
@@ -329,7 +329,7 @@ class C17(Prop):
         # cap amplification: synthetic files around every reachable documented maximum
         for i, (name, _, m, cpath, req) in enumerate(self.synth_specs):
             pth = self.synth_paths[name]
-            kind = {"pe": "pe", "elf": "elf", "macho": "fat" if "fat" in name else "macho"}[m]
+            kind = {"pe": "pe", "dotnet": "pe", "elf": "elf", "macho": "fat" if "fat" in name else "macho"}[m]
             c = self.gen_case(rng.fork("synth%d" % i), (pth, open(pth, "rb").read(), kind), True)
             c.update({"mutation": "synthetic", "what": [name], "shifts": [3], "layout": None})
             cases.append(c)
